@@ -113,7 +113,19 @@ def run(chk, binary):
                 files = [(nm, rng.choice(GOOD).encode()) for nm in names]
                 vscs.append(({"files": files, "opts": ["-i"] + mode + (["--backup"] if backup else []), "cmds": ["-m", ":!rm -f %s<CR>" % names[victim], "-m", "x"], "stdin": None},
                              mode, backup, names[victim]))
-    for (sc, mode, backup, victim), ob in zip(vscs, D.scenarios_map(binary, [x[0] for x in vscs])):
+    vobs = D.scenarios_map(binary, [x[0] for x in vscs])
+    # correspondence for the two-pass write phase (every backup, then every file): parallel drivers with --backup
+    tp = [(sc, ob, victim) for (sc, mode, backup, victim), ob in zip(vscs, vobs) if backup and "--serial" not in mode]
+    from ..common import run_coq_eval, txt, untxt
+    tpm = run_coq_eval("c06_twophase", ["Base.Prelude", "Model.Format", "Model.Drivers", "Model.Obs"], "two_phase_obs",
+                       [([(txt(nm), C("Some", txt(data.decode()))) for nm, data in sc["files"] if nm != victim], [(txt(nm), txt("-")) for nm, _ in sc["files"]]) for sc, ob, victim in tp])
+    for (sc, ob, victim), m in zip(tp, tpm):
+        mfs, mrc = m
+        mfinal = {untxt(nm): (untxt(c_.args[0]).encode() if isinstance(c_, C) and c_.name == "Some" else None) for nm, c_ in mfs}
+        if int(mrc) != (0 if ob["rc"] == 0 else 1) or mfinal != dict(ob["final"]):
+            chk.violation("correspondence:two-pass write phase (backups first)", {"argv": ob["argv"], "vanished": victim, "model_rc": int(mrc), "rc": ob["rc"],
+                          "model_files": {k_: repr(v_)[:80] for k_, v_ in mfinal.items()}, "files": {k_: repr(v_)[:80] for k_, v_ in ob["final"].items()}}, concrete=False)
+    for (sc, mode, backup, victim), ob in zip(vscs, vobs):
         chk.count(("c06-vanish", tuple(mode), backup, victim))
         if ob["rc"] == 0:
             continue
